@@ -1184,7 +1184,9 @@ class SQLModel:
                         merged_terms[k] = subsql.terms[k]
                 subsql.terms = merged_terms
                 # the merged step no longer computes what its original key describes
-                subsql.ops_key = f"extend({extend_node}, {subsql.terms.keys()})"
+                # (built from what is at hand: printing the whole pipeline for every merge is quadratic)
+                if subsql.ops_key is not None:
+                    subsql.ops_key = f"{subsql.ops_key}.merged({annotation}, {list(subsql.terms.keys())})"
                 return subsql
         view_name = "extend_" + str(temp_id_source[0])
         temp_id_source[0] = temp_id_source[0] + 1
